@@ -769,6 +769,61 @@ def explicit_rule(ctx, r):
 
 
 def run(ctx):
+    facts = ctx.facts
+    with ctx.rule("C05.BASE", "a parent matcher taken from the cache is re-based to the root it is handed out for", floor=1,
+                  kind="PASS") as r:
+        # Parent-directory ignore files are matched against absolute_base.join(path). add_parents caches the parent
+        # matchers by directory; a hit returns a matcher built for *another* root. Unless the function looks at / writes
+        # absolute_base between the hit and its return, the second root's paths are re-based under the first root and
+        # the parents' anchored rules silently stop applying (order- and schedule-dependent).
+        f = facts.fn("ignore::dir::Ignore::add_parents")
+        eb = ExprBuilder(f)
+        up = f.calls_to("alloc::sync::Weak::upgrade")
+        hits = []
+        for bb, j, st in f.stmts():
+            if st["k"] == "assign" and st["rv"]["k"] == "agg" and st["rv"].get("adt") == "ignore::dir::Ignore":
+                e = eb.rvalue(st["rv"])
+                ops = e[3] if e.k == "agg" else []
+                for o in ops:
+                    # directly the payload of the upgraded weak pointer (not something computed from an earlier hit)
+                    while isinstance(o, X) and o.k in ("field", "dc", "deref", "ref", "cast"):
+                        o = o[1]
+                    if is_call(o, "alloc::sync::Weak::upgrade"):
+                        hits.append(bb)
+        if not up or not hits:
+            r.ok("add_parents|cache", "add_parents does not reuse cached parent matchers", fn=f, nontrivial=False)
+        else:
+            touch = set()
+            for bb, j, st in f.stmts():
+                if st["k"] != "assign":
+                    continue
+                places = [st["place"]]
+                rv = st["rv"]
+                if rv["k"] in ("ref", "rawptr", "discr"):
+                    places.append(rv["place"])
+                else:
+                    from ..graph import _rv_operands
+                    places += [p_ for p_ in (op_place(o) for o in _rv_operands(rv)) if p_]
+                if any(fld == "absolute_base" for p_ in places for (own, fld) in fields_of_place(p_)):
+                    touch.add(bb)
+            esc = C.all_paths_pass(f, hits, touch, f.return_blocks())
+            if not esc:
+                r.ok("add_parents|cache", "every path from a cache hit to the return examines or sets absolute_base", fn=f)
+            else:
+                r.bad("add_parents|cache", "add_parents can return a cached parent matcher built for another root without touching "
+                      "absolute_base: with several roots under one parent, that parent's anchored ignore rules are matched "
+                      "against paths re-based under the first root", fn=f, construct="absolute_base")
+    with ctx.rule("C05.NAME", "an entry has no file name only when its path is empty or its final component was examined", floor=3,
+                  kind="GUARD") as r:
+        from . import c12
+        FN = "ignore::pathutil::file_name"
+        c12.basename_rule(ctx, r, fnpath=FN, key="name", candidate=False)
+        for user in ("ignore::pathutil::is_hidden", "ignore::types::Types::matched"):
+            u = facts.fn(user)
+            if u.calls_to(FN):
+                r.ok("name|user|" + user.split("::")[-1], "decides on pathutil::file_name", fn=u, nontrivial=False)
+            else:
+                r.bad("name|user|" + user.split("::")[-1], "%s no longer takes the entry's name from pathutil::file_name" % user, fn=u)
     with ctx.rule("C05.CHAIN", "the .or() chain of matched_ignore lists the sources in documented precedence order",
                   floor=6, kind="FLOW") as r:
         chain_rule(ctx, r)
